@@ -42,6 +42,13 @@ let () =
     let (st, out) = tstep !nt !ts o in
     ts := st;
     (match o with TRun _ | TProg _ | TDrain _ | TObs | TLatch _ -> print_zs out | _ -> ()) in
+  let kt = Array.make 3 ktimer0 in
+  let kdump calls =
+    let cs = List.concat (List.map (fun c -> match c with KCreate -> [z_of_int 1] | KSettime v -> [z_of_int 2; v] | KCtl o -> [z_of_int 3; o]) calls) in
+    let b x = if x then z_of_int 1 else Z0 in
+    let ks = List.concat (List.map (fun k -> [b k.k_fd; b k.k_registered; b k.k_armed]) (Array.to_list kt)) in
+    let hs = List.concat (List.map (fun i -> let h = (!ts).s_heaps (z_of_int i) in [b h.h_np; b ((!ts).s_harmed (z_of_int i))]) [0; 1; 2]) in
+    print_zs (cs @ [z_of_int (-1)] @ ks @ [z_of_int (-1)] @ hs @ [z_of_int (-1); b (!ts).s_dirty]) in
   let pending_keys = Hashtbl.create 16 in
   try
     while true do
@@ -63,7 +70,20 @@ let () =
                let (k, off) = slot_addr (z_of_int i) in go (i + 1) (off :: k :: acc) in
            print_zs (hh.h_segs :: cap :: go 0 [])
          | "M" -> let ((r, tg), dl) = compute_missed a.(0) a.(1) a.(2) a.(3) a.(4) in print_zs [r; tg; dl]
+         | "ka" -> let i = int_of_z a.(0) in let (k, c) = timeout_program kt.(i) a.(1) in kt.(i) <- k; kdump c
+         | "kA" -> let i = int_of_z a.(0) in let (k, c) = loop_timer_arm kt.(i) a.(1) a.(2) in kt.(i) <- k; kdump c
+         | "kd" -> let i = int_of_z a.(0) in let (k, c) = loop_timer_delete kt.(i) in kt.(i) <- k; kdump c
+         | "kx" -> let i = int_of_z a.(0) in kt.(i) <- merge_timer_k kt.(i); ts := kernel_expired !ts a.(0); kdump []
+         | "kh" ->
+           let st = !ts in
+           let h = set_np (st.s_heaps a.(0)) (int_of_z a.(1) <> 0) in
+           let st = set_dirty (set_heap st a.(0) h) false in
+           ts := { st with s_harmed = (fun j -> if int_of_z j = int_of_z a.(0) then int_of_z a.(2) <> 0 else st.s_harmed j) };
+           kdump []
          | "G" -> let (((c, tg), dl), itv) = config_create a.(0) a.(1) a.(2) a.(3) a.(4) a.(5) a.(6) in print_zs [c; tg; dl; itv]
+         | "J" -> (match interval_config_create a.(0) a.(1) a.(2) (int_of_z a.(3) <> 0) a.(4) with
+                   | None -> print_zs [z_of_int (-1)]
+                   | Some (((c, tg), dl), itv) -> print_zs [c; tg; dl; itv])
          | "H" -> print_zs (after_obs (dispatch_after_model a.(0) a.(1) a.(2) a.(3)))
          | "t" -> top (TNew (a.(0), a.(1)))
          | "a" -> top (TAfter (a.(0), a.(1), a.(2)))
